@@ -7,6 +7,7 @@ persisted histories and the in-memory histories; block tables; latest; max; bloc
 -/
 import Brc20.Model.Node
 import Brc20.Model.Sim
+import Brc20.Model.FailedTx
 import Brc20.Model.Forks
 import Brc20.Model.Logs
 
@@ -108,7 +109,12 @@ def logsq (g : String → String) : String :=
     let ids := ((inRange f t).filter (fun e => Logs.logMatches addr topics e.2.2)).map (·.2.1)
     if ids.length = ls.length then "ok " ++ ",".intercalate ids else "model-inconsistent"
 
-def step (n : Node) (line : String) : Node × String :=
+/-- The transition function with the answer still structured: `.inl c` is the response class of a call (`step` prints
+it followed by the state digest, or `panic` alone), `.inr s` is an answer that is printed as it is (`case`, `logsq`,
+`pbound`, an unknown operation word). `step` is this function followed by the printing; the properties that speak
+about the class of an answer (C05: an error answer leaves the node as it was) are stated on it, so that they do not
+have to parse the answer text. -/
+def stepCore (n : Node) (line : String) : Node × (Class ⊕ String) :=
   let parts := line.splitOn " ## "
   let head := (parts.headD "").trimAscii.toString
   let evs := (parts.drop 1).map parseEv
@@ -116,10 +122,9 @@ def step (n : Node) (line : String) : Node × String :=
   let f := kvs ws
   let g := fun k => field f k
   let num := fun k => (g k).toNat!
-  -- a panic ends the process: the answer is the panic itself, no state is reported
-  let fin := fun (r : Node × Class) => (r.1, if r.2 = .panic then "panic" else r.2.show ++ " | " ++ digest r.1)
+  let fin := fun (r : Node × Class) => ((r.1, Sum.inl r.2) : Node × (Class ⊕ String))
   match ws.headD "" with
-  | "case" => ({}, "case")
+  | "case" => ({}, .inr "case")
   | "init" => fin (n.initialise (strip0x (g "hash")) (num "ts") (num "height") evs)
   | "mine" => fin (if num "count" = 0 ∧ n.lbi.waiting = 0 then (n, .ok) else n.mine (num "count") (num "ts") evs)
   | "deploy" | "call" | "deposit" | "withdraw" =>
@@ -130,6 +135,8 @@ def step (n : Node) (line : String) : Node × String :=
     -- deploy/call: the data selection is checked before the pkscript; deposit/withdraw have no data fields
     if selErr then fin (n, .err "data")
     else if pkErr then fin (n, .err "param")
+    -- C16: a call whose single EVM run failed may not have written EVM state (Model/FailedTx.lean)
+    else if !(n.failedTxOk evs) then fin (n, .reject "failed-tx-wrote-state")
     else fin (n.addTxs (num "ts") (strip0x (g "hash")) (num "idx")
       (if dataFirst then some (strip0x (g "txid")) else some zeroHash) evs (some 1))
   | "transact" =>
@@ -145,15 +152,25 @@ def step (n : Node) (line : String) : Node × String :=
   | "reopen" => fin (n.reopen, .ok)
   | "reorg" => fin (n.reorg (num "n"))
   | "read" => fin (readStep n (parts.drop 1) evs (num "ncalls"))
-  | "logsq" => (n, logsq g)
+  | "logsq" => (n, .inr (logsq g))
   | "pbound" =>
     -- Prague boundary scenario (C19): what the probe read from the current-txid helper; activation heights pinned to
     -- Gen by `C19.fork_heights_pinned`; the parking block (`park=`) is deliberately not consulted
     if g "kind" == "collide" then
-      (n, "seen=" ++ Forks.txidSeenColliding 923369 275000 929000 0 (Forks.netOf (g "net")) (num "park") (num "exec")
-        (g "txid") (g "other") zeroHash)
+      (n, .inr ("seen=" ++ Forks.txidSeenColliding 923369 275000 929000 0 (Forks.netOf (g "net")) (num "park") (num "exec")
+        (g "txid") (g "other") zeroHash))
     else
-      (n, "seen=" ++ Forks.txidSeen 923369 275000 (Forks.netOf (g "net")) (num "exec") (g "txid") zeroHash)
-  | _ => (n, "bad-op")
+      (n, .inr ("seen=" ++ Forks.txidSeen 923369 275000 (Forks.netOf (g "net")) (num "exec") (g "txid") zeroHash))
+  | _ => (n, .inr "bad-op")
+
+/-- the text of an answer: a response class is followed by the digest of the node after the call; a panic ends the
+process: the answer is the panic itself, no state is reported -/
+def showAnswer (node : Node) : Class ⊕ String → String
+  | .inl c => if c = .panic then "panic" else c.show ++ " | " ++ digest node
+  | .inr s => s
+
+def step (n : Node) (line : String) : Node × String :=
+  let r := stepCore n line
+  (r.1, showAnswer r.1 r.2)
 
 end Brc20.DriverE
